@@ -154,12 +154,13 @@ func (h *Handler) Handle(down *layer4.Connection, _ layer4.Handler) error {
 
 	start := time.Now()
 
+	var upstream *Upstream
 	var upConns []net.Conn
 	var proxyErr error
 
 	for {
 		// choose an available upstream
-		upstream := h.LoadBalancing.SelectionPolicy.Select(h.Upstreams, down)
+		upstream = h.LoadBalancing.SelectionPolicy.Select(h.Upstreams, down)
 		if upstream == nil {
 			if proxyErr == nil {
 				proxyErr = fmt.Errorf("no upstreams available")
@@ -183,10 +184,19 @@ func (h *Handler) Handle(down *layer4.Connection, _ layer4.Handler) error {
 		break
 	}
 
+	// count the connection against each peer for as long as it is proxied,
+	// so that max_connections and unhealthy_connection_count take effect
+	for _, p := range upstream.peers {
+		_ = p.countConn(1)
+	}
+
 	// make sure upstream connections all get closed
 	defer func() {
 		for _, conn := range upConns {
 			_ = conn.Close()
+		}
+		for _, p := range upstream.peers {
+			_ = p.countConn(-1)
 		}
 	}()
 
